@@ -42,7 +42,9 @@ Strats == StratsLinear
 Ids == {1, 2}
 OneId == {1}
 Queries == {"-Inf", "-1", "0", "1", "2", "4", "5", "NaN"}
-QLists == {<<q>> : q \in Queries} \cup {<<a, b>> : a, b \in {"-1", "1", "4", "NaN"}}
+\* the EMPTY batch is a question too: it is answered Ok with an empty result whatever the strategy (nothing to reject)
+EmptyQ == {<<>>}
+QLists == {<<q>> : q \in Queries} \cup {<<a, b>> : a, b \in {"-1", "1", "4", "NaN"}} \cup EmptyQ
 
 \* 2-D (Interp2D): x axes as above, these y axes (valid, tie, too short), one 3 x 2 grid of data
 AxesY == {<<"0", "2">>, <<"1", "1">>, <<"0">>}
@@ -51,7 +53,7 @@ StratsBilinear == {[k |-> "Bilinear", ex |-> 0], [k |-> "Bilinear", ex |-> 1]}
 NoStrats == {}
 Strats2 == NoStrats          \* 2-D builds are switched on by a configuration (Strats2 <- StratsBilinear)
 QLists2 == {<< <<a, b>> >> : a \in {"-1", "0", "1", "4", "5", "NaN"}, b \in {"-1", "0", "1", "2", "NaN"}}
-           \cup {<< <<"1", "1">>, <<a, b>> >> : a \in {"4", "5"}, b \in {"0", "NaN"}}
+           \cup {<< <<"1", "1">>, <<a, b>> >> : a \in {"4", "5"}, b \in {"0", "NaN"}} \cup EmptyQ
 Cfg2(x, yy, st) == [rank |-> 2, nx |-> Len(Grid), ny |-> Len(Grid[1]), x |-> x, y |-> yy, z |-> Grid, st |-> st,
                     dshape |-> <<Len(Grid), Len(Grid[1])>>]
 
@@ -140,7 +142,7 @@ Return(t) ==
            r == ReplyOf(i, objs[i], pend[t].qs, pend[t].buf)
            lastq == pend[t].qs[Len(pend[t].qs)]
        IN  /\ hist' = hist \cup {<<i, pend[t].qs, r, pend[t].buf>>}
-           /\ hint' = IF Hint /\ r.out = "Ok" /\ ~IsNaN(lastq) THEN [hint EXCEPT ![i] = Bracket(cfg.x, lastq)] ELSE hint
+           /\ hint' = IF Hint /\ r.out = "Ok" /\ pend[t].qs # <<>> /\ ~IsNaN(lastq) THEN [hint EXCEPT ![i] = Bracket(cfg.x, lastq)] ELSE hint
     /\ pend' = [pend EXCEPT ![t] = [busy |-> FALSE]]
     /\ UNCHANGED <<objs, ncalls>>
 
@@ -206,6 +208,10 @@ ShapeOk == \A h \in hist : h[3].out = "Ok" =>
               LET o == objs[h[1]] IN
               /\ h[3].shape = <<Len(h[2])>> \o (IF o.cfg.rank = 1 /\ NLanes(o) > 1 THEN <<NLanes(o)>> ELSE <<>>)
               /\ Len(h[3].vals) = Len(h[2]) * LanesOf(o)
+\* C05 / C06 / C09: the empty batch has no element that could be rejected - it is answered, with an empty result of the
+\* shape 0 ++ trailing data dims, by every strategy with or without extrapolation (and a wrongly shaped buffer is
+\* still rejected: BadBufferNeverOk does not exempt it)
+EmptyBatchAnswered == \A h \in hist : h[2] = <<>> /\ h[4] # "bad" => h[3].out = "Ok" /\ h[3].vals = <<>> /\ h[3].shape[1] = 0
 \* C08: lane l of a multi-lane interpolator answers like a single-lane interpolator over that lane alone
 LaneAlone ==
     \A h \in hist : h[3].out = "Ok" /\ objs[h[1]].cfg.rank = 1 =>
